@@ -1025,6 +1025,9 @@ pub enum Profile {
     Tracker,
     /// world mutations interleaved with (de)serialisation, token- and byte-level mutations (C14, C15)
     Serde,
+    /// large batches and repeated merges into populated archetypes: capacity boundaries 63/64/65,
+    /// doubling points, reserve-then-merge (C04, C12)
+    Capacity,
 }
 
 impl Gen {
@@ -1376,12 +1379,30 @@ impl Gen {
                 2 => Op::Remove { w, h, k },
                 _ => {
                     let (k2, b2) = self.random_bundle();
-                    Op::Exchange { w, h, ks: 10, k: k2, b: b2 }
+                    Op::Exchange { w, h, ks: NSMALL, k: k2, b: b2 }
                 }
             };
         }
         if self.profile == Profile::Containers && self.rng.chance(70) {
             return self.cont_op(ctx, w);
+        }
+        if self.profile == Profile::Capacity && self.rng.chance(55) {
+            let pools: [&[usize]; 4] = [&[0], &[1, 3], &[7], &[0, 5]];
+            let decl = pools[self.rng.below(4)].to_vec();
+            let n = *self.rng.pick(&[1usize, 2, 63, 64, 65, 66, 127, 129, 200]).unwrap();
+            return match self.rng.below(4) {
+                0 | 1 => {
+                    let rows = self.batch_rows(&decl, n);
+                    Op::SpawnCb { w, decl, rows }
+                }
+                2 => {
+                    let k = *self.rng.pick(&[1usize, 10, 8, 12]).unwrap();
+                    let ts = bundle_types(k);
+                    let rows = (0..n).map(|_| self.bundle_for_types(&ts)).collect();
+                    Op::SpawnBatch { w, k, rows }
+                }
+                _ => Op::Reserve { w, k: *self.rng.pick(&[1usize, 10, 8, 12]).unwrap() },
+            };
         }
         if self.profile == Profile::Serde && self.rng.chance(30) {
             let sets: [&[usize]; 4] = [&[0, 1, 2, 3, 5, 7], &[0, 1], &[0, 1, 2, 3, 4, 5, 6, 7, 8, 9], &[1, 4, 8]];
@@ -1459,6 +1480,7 @@ impl Gen {
             Profile::Containers => [14, 3, 2, 2, 1, 10, 8, 4, 12, 3, 1, 2, 1, 4, 2, 0],
             Profile::Tracker => [1, 0, 0, 0, 0, 0, 0, 0, 0, 0, 0, 0, 0, 0, 0, 0],
             Profile::Serde => [18, 5, 3, 3, 2, 14, 10, 6, 10, 3, 0, 2, 1, 2, 1, 0],
+            Profile::Capacity => [10, 2, 0, 0, 0, 4, 4, 1, 14, 2, 1, 1, 0, 1, 1, 0],
         };
         match self.rng.weighted(&weights) {
             0 => {
